@@ -91,10 +91,17 @@ def _tick(key):
     if c is not None:
         c.tick(key)
     else:
-        GLOBAL_TICKS[key] = GLOBAL_TICKS.get(key, 0) + 1
+        n = GLOBAL_TICKS[key] = GLOBAL_TICKS.get(key, 0) + 1
+        if TICK_CAP[0] is not None and n > TICK_CAP[0]:
+            raise TickCap(key)
+
+
+class TickCap(BaseException):
+    """native run-away guard: a ghost counter exceeded the cap a harness set (reported as a violated bound, never a hang)"""
 
 
 GLOBAL_TICKS = {}
+TICK_CAP = [None]
 
 
 class _Finder(importlib.abc.MetaPathFinder, importlib.abc.Loader):
@@ -181,6 +188,7 @@ def install_native(ticks=False):
     if _installed is not None:
         raise RuntimeError('a process is either symbolic or native')
     _purge()
+    ticks = ticks or bool(TICK_LOOPS)        # a harness that declared ghost counters gets them natively as well
     if ticks:
         class _Only(_Finder):
             pass
